@@ -89,7 +89,10 @@ theorem crop_kspace_plan_eq : Gen.C10.cropKspacePlan = some Crop.cropKspacePlan 
 theorem kspace_plans_no_early_return :
     Gen.C10.padKspacePlanReturns = 1 ∧ Gen.C10.cropKspacePlanReturns = 1 := by decide
 
-/-- `crop_to_largest`: `crop_start = -(max_shape - shape) // 2` -/
+/-- the padded patch of `crop_to_bbox` is allocated with `full(size, pad_value, dtype=data.dtype)` on both paths -/
+theorem bbox_patch_alloc_full : (Gen.C10.bboxPatchAlloc.map fun l => l.all (· == Crop.PatchAlloc.full)) = some true := by decide
+
+/-- `crop_to_largest`: `crop_start = -((max_shape - shape) // 2)` -/
 theorem crop_to_largest_start_eq (mx n : Int) : crop_to_largest_start mx n = cropToLargestStart mx n := by
   simp only [crop_to_largest_start, cropToLargestStart, Int.fdiv_eq_ediv_of_nonneg _ (by decide : (0:Int) ≤ 2)] <;> bridge_arith
 
